@@ -691,6 +691,69 @@ fn run_case(case: &Val) -> Val {
             let ops2 = std::mem::take(&mut sink.ops);
             Val::L(vec![norm(ops1), norm(ops2)])
         }
+        // [15, [[local_pref, filtered, nexthop_invalid]..]]: one destination, every path from the
+        // same peer (distinct add-path ids, distinct LOCAL_PREF so that the order is decided),
+        // then the real Table::restale_llgr; observation: the change stream, path ids renamed to
+        // the 1-based position of the path in the case
+        15 => {
+            let specs = case.at(1).list();
+            let mut t = table::Table::new(0);
+            let net: packet::Nlri = "10.9.0.0/24".parse().unwrap();
+            let peer: IpAddr = "10.0.0.2".parse().unwrap();
+            let src = Arc::new(table::Source::new(
+                peer,
+                IpAddr::V4(Ipv4Addr::new(127, 0, 0, 1)),
+                65002,
+                65001,
+                Ipv4Addr::new(10, 0, 0, 2),
+                PeerRole::Ebgp,
+            ));
+            for (k, sp) in specs.iter().enumerate() {
+                let attrs = Arc::new(vec![
+                    packet::Attribute::new_with_value(packet::Attribute::ORIGIN, 0).unwrap(),
+                    packet::Attribute::new_with_value(packet::Attribute::LOCAL_PREF, sp.at(0).u32()).unwrap(),
+                ]);
+                let _ = t.insert(
+                    src.clone(),
+                    Family::IPV4,
+                    net.clone(),
+                    (k + 1) as u32,
+                    Some(bgp::Nexthop::V4(Ipv4Addr::new(10, 0, 0, 9))),
+                    attrs.clone(),
+                    Some(attrs),
+                    sp.at(1).bool(),
+                    sp.at(2).bool(),
+                    None,
+                    0,
+                );
+            }
+            let rename = |p: &table::Path| -> Val {
+                let lp = p
+                    .attr
+                    .iter()
+                    .find(|a| a.code() == packet::Attribute::LOCAL_PREF)
+                    .and_then(|a| a.value())
+                    .unwrap();
+                Val::us(1 + specs.iter().position(|sp| sp.at(0).u32() == lp).unwrap())
+            };
+            let changes = t.restale_llgr(peer, Family::IPV4);
+            Val::L(
+                changes
+                    .iter()
+                    .map(|c| {
+                        let rep = c.replaced_path_id.map(|pid| {
+                            rename(c.current_paths.iter().find(|p| p.local_path_id == pid).unwrap())
+                        });
+                        Val::L(vec![
+                            Val::b(c.best_changed),
+                            Val::b(c.any_changed),
+                            Val::opt(rep),
+                            Val::L(c.current_paths.iter().map(rename).collect()),
+                        ])
+                    })
+                    .collect(),
+            )
+        }
         t => panic!("verif: unknown case tag {}", t),
     }
 }
